@@ -8,6 +8,7 @@ use ast_grep_config::RuleConfig;
 use codespan_reporting::files::SimpleFile;
 
 use std::borrow::Cow;
+use std::collections::HashMap;
 use std::ops::Range;
 use std::path::{Path, PathBuf};
 
@@ -16,6 +17,9 @@ pub struct InteractivePrinter<P: Printer> {
   from_stdin: bool,
   committed_cnt: usize,
   inner: P,
+  // edits already written to a file in this run. One file can yield several documents,
+  // e.g. html with embedded js/css, and every document is rewritten against the same original source.
+  rewritten: HashMap<PathBuf, Vec<InteractiveDiff<()>>>,
 }
 
 impl<P: Printer> InteractivePrinter<P> {
@@ -28,6 +32,7 @@ impl<P: Printer> InteractivePrinter<P> {
         from_stdin,
         inner,
         committed_cnt: 0,
+        rewritten: HashMap::new(),
       })
     }
   }
@@ -48,9 +53,22 @@ impl<P: Printer> InteractivePrinter<P> {
     utils::prompt(VIEW_PROMPT, "qe", Some('\n')).expect("cannot fail")
   }
 
-  fn rewrite_action(&self, diffs: Diffs<()>, path: &PathBuf) -> Result<()> {
+  fn rewrite_action(&mut self, mut diffs: Diffs<()>, path: &PathBuf) -> Result<()> {
     if diffs.contents.is_empty() {
       return Ok(());
+    }
+    if !self.from_stdin {
+      // keep the edits of the documents of this file that were written before
+      let previous = self.rewritten.remove(path).unwrap_or_default();
+      diffs.contents.extend(previous);
+      diffs.contents.sort_by_key(|d| d.range.start);
+      let copy = diffs.contents.iter().map(|d| InteractiveDiff {
+        replacement: d.replacement.clone(),
+        range: d.range.clone(),
+        first_line: d.first_line,
+        display: (),
+      });
+      self.rewritten.insert(path.clone(), copy.collect());
     }
     #[cfg(ast_grep_verif)]
     ast_grep_core::verif_hook::emit(
